@@ -309,6 +309,7 @@ func runC03(p *an.Prog, r *an.Run, tier string) {
 	checkMinBalanceWiring(p, r)
 	checkBalanceReadErrors(p, r)
 	checkMinImmutable(p, r)
+	checkBigIntOwnership(p, r)
 	checkConnectOrder(p, r)
 	// every function constructing a LowBalanceError must be one of the two anchors
 	n := 0
@@ -841,6 +842,7 @@ func runC02(p *an.Prog, r *an.Run, tier string) {
 	// the client is debited exactly what its peers were credited (the same pairing obligations as C01, for this property's clause
 	// "the client is debited exactly the sum ... a failed update is all-or-nothing" as far as structure can tell)
 	checkPairing(p, r, onUpdate, false)
+	checkBigIntOwnership(p, r)
 
 	// lastseen-writers: outside the drivers a node record is only ever (re)written with LastSeen = time.Now();
 	// writing back an older record rewinds LastSeen and the same stretch of time is billed again
@@ -1385,7 +1387,7 @@ func checkMinBalanceWiring(p *an.Prog, r *an.Run) {
 		return
 	}
 	r.Analysed(an.FuncName(runPool))
-	n := 0
+	n, nParse := 0, 0
 	var bad []string
 	for _, fn := range regionFuncs(p, runPool) {
 		an.AllInstrs(fn, func(in ssa.Instruction) {
@@ -1413,6 +1415,24 @@ func checkMinBalanceWiring(p *an.Prog, r *an.Run) {
 			if !fromOption {
 				bad = append(bad, "the installed minimum at "+p.Pos(st.Pos())+" does not derive from the min-balance option")
 			}
+			// the threshold is an exact number of wei: whatever turns the option's text into it stays in exact arithmetic
+			// (big.Int / big.Rat); a float64 on the way moves the threshold by wei for most decimal fractions
+			for _, nd := range dv.Nodes {
+				c, ok := nd.(*ssa.Call)
+				if !ok {
+					continue
+				}
+				callee := c.Call.StaticCallee()
+				if callee == nil || !p.InRepo(callee) || len(callee.Blocks) == 0 {
+					continue
+				}
+				nParse++
+				for _, rf := range regionFuncs(p, callee) {
+					if why := floatArithmetic(p, rf); why != "" {
+						bad = append(bad, "the configured minimum is converted by "+an.FuncName(callee)+" through floating point ("+why+"): the installed threshold differs from the configured amount by some wei, so a client holding exactly the minimum is refused or one just below it is let in")
+					}
+				}
+			}
 			for _, c := range an.ControllingIfs(st.Block()) {
 				if isErrNilTest(c.If.Cond) {
 					continue
@@ -1434,6 +1454,7 @@ func checkMinBalanceWiring(p *an.Prog, r *an.Run) {
 		})
 	}
 	r.Floor("min-balance-wiring", n, 1)
+	r.Floor("min-balance-parsers", nParse, 1)
 	r.Check(len(bad) == 0, "wiring", "main.runPool", runPool.Pos(), "the configured minimum is installed for every value but \"off\"", "%s", strings.Join(dedup(bad), "; "))
 }
 
@@ -1715,4 +1736,43 @@ func checkConnectOrder(p *an.Prog, r *an.Run) {
 		bad = append(bad, "OnClient at "+p.Pos(onc.Pos())+" is reachable without the node having been saved (SetNode at "+p.Pos(setn.Pos())+"): the balance lookup of a first-time client fails with ErrUnregisteredNode instead of judging its balance")
 	}
 	r.Check(len(bad) == 0, "connect-order", an.FuncName(conn), conn.Pos(), "the node record is saved before OnClient reads its balance", "%s", strings.Join(bad, "; "))
+}
+
+// floatArithmetic: fn computes with a floating-point value (a float-typed SSA value that is not a constant, or a
+// big.Float); returns where, or "".
+func floatArithmetic(p *an.Prog, fn *ssa.Function) string {
+	why := ""
+	isFloat := func(t types.Type) bool {
+		if b, ok := t.Underlying().(*types.Basic); ok && b.Info()&types.IsFloat != 0 {
+			return true
+		}
+		if pt, ok := t.(*types.Pointer); ok {
+			t = pt.Elem()
+		}
+		if n, ok := t.(*types.Named); ok && n.Obj().Pkg() != nil && n.Obj().Pkg().Path() == "math/big" && n.Obj().Name() == "Float" {
+			return true
+		}
+		return false
+	}
+	an.AllInstrs(fn, func(in ssa.Instruction) {
+		if why != "" {
+			return
+		}
+		v, ok := in.(ssa.Value)
+		if !ok {
+			return
+		}
+		if tup, ok := v.Type().(*types.Tuple); ok {
+			for i := 0; i < tup.Len(); i++ {
+				if isFloat(tup.At(i).Type()) {
+					why = "a " + tup.At(i).Type().String() + " at " + p.Pos(in.Pos())
+				}
+			}
+			return
+		}
+		if isFloat(v.Type()) {
+			why = "a " + v.Type().String() + " at " + p.Pos(in.Pos())
+		}
+	})
+	return why
 }
